@@ -95,19 +95,26 @@ def fromBom : Bytes → Enc × Bytes
   | 0xFE :: 0xFF :: r => (.utf16be, r)
   | b => (.utf8, b)
 
-/-- the successive `read_buf` contents of `read_line` (`cur` = current line, reversed); `none` =
-`read_exact` hit the end of input (UTF-16LE only): `io::ErrorKind::UnexpectedEof`. -/
-def rawLines (le : Bool) : Bytes → Bytes → Option (List Bytes)
-  | [], [] => some []
-  | cur, [] => some [cur.reverse]
-  | cur, b :: r =>
-    if b = 10 then
-      if le then
-        match r with
-        | [] => none
-        | x :: r' => (rawLines le [] r').map ((x :: 10 :: cur).reverse :: ·)
-      else (rawLines le [] r).map ((10 :: cur).reverse :: ·)
-    else rawLines le (b :: cur) r
+/-- the last `read_until` before `Ok(None)`: a non-empty rest without `\n` is a line -/
+def endLine (cur : Bytes) : List Bytes := if cur.isEmpty then [] else [cur.reverse]
+
+/-- the successive `read_buf` contents of `read_line` for UTF-8 / UTF-16BE (`cur` = current line,
+reversed): split after every `0x0A` byte -/
+def rawLinesN : Bytes → Bytes → List Bytes
+  | cur, [] => endLine cur
+  | cur, b :: r => if b = 10 then (10 :: cur).reverse :: rawLinesN [] r else rawLinesN (b :: cur) r
+
+/-- the same for UTF-16LE: one more byte is read after every `0x0A`; `none` = `read_exact` hit the
+end of input: `io::ErrorKind::UnexpectedEof` -/
+def rawLinesLE : Bytes → Bytes → Option (List Bytes)
+  | cur, [] => some (endLine cur)
+  | cur, [b] => if b = 10 then none else some [(b :: cur).reverse]
+  | cur, b :: x :: r =>
+    if b = 10 then (rawLinesLE [] r).map ((x :: 10 :: cur).reverse :: ·)
+    else rawLinesLE (b :: cur) (x :: r)
+
+def rawLines (le : Bool) (cur r : Bytes) : Option (List Bytes) :=
+  if le then rawLinesLE cur r else some (rawLinesN cur r)
 
 def decodeBuf : Enc → Bytes → List Nat
   | .utf8, b => decodeUtf8 b
